@@ -34,8 +34,20 @@ class RemotePool:
         self.flavour = flavour
         overlay = B.build(flavour)
         env = B.env_for(flavour, overlay)
+        def _limits():
+            # ASan inflates C++ stack frames ~10x; scale the main-thread stack limit with it so that only
+            # genuinely unbounded recursion overflows (the plain build runs with the default 8 MiB).
+            if flavour == 'asan':
+                import resource
+                soft, hard = resource.getrlimit(resource.RLIMIT_STACK)
+                want = 512 << 20
+                if hard != resource.RLIM_INFINITY:
+                    want = min(want, hard)
+                resource.setrlimit(resource.RLIMIT_STACK, (want, hard))
+
         self.proc = subprocess.Popen([B.PYTHON, '-m', 'optsim.poolserver', module, str(workers), str(timeout)],
-                                     stdin=subprocess.PIPE, stdout=subprocess.PIPE, env=env, cwd=VERIF)
+                                     stdin=subprocess.PIPE, stdout=subprocess.PIPE, env=env, cwd=VERIF,
+                                     preexec_fn=_limits)
         self.buf = b''
         self.outstanding = 0
         self.workers = workers
@@ -275,7 +287,8 @@ def check(prop, tier, args):
             return 2
         # ---- main exploration
         agg = Aggregate(eng)
-        deadline = t_start + budget
+        t_explore = time.monotonic()
+        deadline = t_explore + budget
         max_runs = int(os.environ.get('VERIF_MAX_RUNS') or args.max_runs or cfg.get('max_runs', 10 ** 9))
         stop = lambda: time.monotonic() > deadline or agg.runs >= max_runs or len(agg.violations) >= 24  # noqa: E731
         by_fl = {fl: [] for fl in flavours}
@@ -296,7 +309,7 @@ def check(prop, tier, args):
                     continue
                 out['flavour'] = fl
                 agg.add(out)
-        explore_s = time.monotonic() - t_start
+        explore_s = time.monotonic() - t_explore
         # ---- violations -> minimise, replay files, known findings
         known = load_known()
         reported = []
